@@ -514,6 +514,18 @@ def _b_sorted(interp, st, args, kw):
         return VList(sorted(items))
     if "key" in kw and len(items) <= 1:
         return VList(items)
+    if not kw and len(items) <= 4 and all(is_num(interp.resolve(st, x)) for x in items):
+        # symbolic numbers: insertion sort, branching on the comparisons (A3: sorted is the ordered permutation)
+        out = []
+        for x in items:
+            x = interp.resolve(st, x)
+            pos = len(out)
+            for i, y in enumerate(out):
+                if interp.truth(st, num_cmp("<", x, y)):
+                    pos = i
+                    break
+            out.insert(pos, x)
+        return VList(out)
     srt = st.ghost.get("sorted")
     if srt is not None:
         return srt(interp, st, items, kw)
@@ -623,6 +635,18 @@ def _b_np_maximum(interp, st, args, kw):
     return max2(interp, st, interp.resolve(st, args[0]), interp.resolve(st, args[1]))
 
 
+def _b_np_isclose(interp, st, args, kw):
+    """numpy.isclose(a, b, rtol=1e-05, atol=1e-08): |a - b| <= atol + rtol*|b|  (A2)"""
+    from fractions import Fraction as _F
+    a, b = interp.resolve(st, args[0]), interp.resolve(st, args[1])
+    rtol = kw.get("rtol", args[2] if len(args) > 2 else _F("1e-5"))
+    atol = kw.get("atol", args[3] if len(args) > 3 else _F("1e-8"))
+    interp.assumed.add("A2 numpy.isclose: |a-b| <= atol + rtol*|b|")
+    diff = abs_value(interp, st, num_sub(a, b))
+    bound = num_add(atol, num_mul(rtol, abs_value(interp, st, b)))
+    return num_cmp("<=", diff, bound)
+
+
 def _b_np_isscalar(interp, st, args, kw):
     v = interp.resolve(st, args[0])
     vec = st.ghost.get("is_vector")
@@ -723,6 +747,7 @@ def _np_namespace():
         "pi": None, "nan": NAN, "inf": INF, "isnan": VBuiltin("np.isnan", _b_isnan),
         "radians": VBuiltin("np.radians", _b_radians), "cos": VBuiltin("np.cos", _b_cos_generic),
         "interp": VBuiltin("np.interp", _b_np_interp), "sum": VBuiltin("np.sum", _b_np_sum),
+        "isclose": VBuiltin("np.isclose", _b_np_isclose),
         "asarray": VBuiltin("np.asarray", _b_identity),
     }
     return ns
